@@ -79,7 +79,11 @@ def generate(rng, tier, idx):
         if u['format'] is None:
             del u['format']
         r = rng.random()
-        if r < 0.55 and logical:
+        if r < 0.12:
+            # the watermark comes from the profile (128), only the format is given
+            u['profile'] = rng.choice(['ebuild', 'old-ebuild'])
+            u['api'] = rng.choice(['cli', 'cli', 'lib'])
+        elif r < 0.6 and logical:
             u['wm_of'] = [rng.choice(logical), rng.choice([-1, 0, 1])]
         else:
             u['watermark'] = rng.choice([0, 0, 1, 50, 100000])
@@ -216,7 +220,14 @@ def execute(sc):
             continue
         compared += 1
         if obs2 != base_obs:
-            diff = [(a, b) for a, b in zip(base_obs, obs2) if a != b][:2]
+            diff = [(a, b) for a, b in zip(base_obs, obs2) if a != b]
+            # two runs that both FAIL a verification, with different first failures (a symlink loop, a genuine OS error and
+            # a mismatch in one tree: strict mode stops at whichever the walk meets first, and the names of the Manifest
+            # files take part in the enumeration order) do not disagree about the tree
+            if diff and all(len(a) >= 3 and len(b) >= 3 and a[0] == b[0] == 'verify' and a[1] == b[1] and
+                            a[2] in ('GE', 'OS') and b[2] in ('GE', 'OS') for a, b in diff):
+                continue
+            diff = diff[:2]
             violations.append(viol('transp.results-differ', 'compression assignment %r changes results: %r' % (amap, diff), sig=diff[0][0][0] if diff else 'len'))
     c = {'mode.transparency': 1, 'assignments_compared': compared, 'sub_manifests': nsub}
     return mk_result(seams, violations, nsub > 0 and compared > 0, outcome=[str(o)[:80] for o in base_obs[:4]], counters=c,
